@@ -169,7 +169,9 @@ func (list *tSkipList[K, V]) mkNode(key K, val V) (int, *tSkipNode[K, V]) {
 	// See: https://golang.org/src/math/rand/rand.go#L150
 	p := float64(list.random.Int63()) / (1 << 63)
 
-	level := 0
+	// every node has at least one level: p[0] is 1.0 and the draw above
+	// rounds to exactly 1.0 for the largest values of Int63
+	level := 1
 	for level < list.levels && p < list.p[level] {
 		level++
 	}
